@@ -94,22 +94,22 @@ PROPS["C19"] = {
 }
 
 PROPS["C12"] = {
-    "modules": ["Gmsm.Props.C12", "Gmsm.Props.C12Bytes"],
+    "modules": ["Gmsm.Props.C12", "Gmsm.Props.C12Bytes", "Gmsm.Props.C12Top"],
     "theorems": [
         "Props.C12.dec_enc", "Props.C12.sm4gcm_dec_enc", "Props.C12.ae_lengths", "Props.C12.tag_flip",
         "Props.C12.mul_linear", "Props.C12.ghash_single_block_partial", "Props.C12.counter_no_repeat",
-        "Proofs.GCM.gctr_involution", "Proofs.GCM.inc32_low", "Proofs.GCM.inc32_high", "Props.C12Bytes.rightshift_eq", "Props.C12Bytes.addition_eq", "Props.C12Bytes.findYi_eq", "Props.C12Bytes.multiplication_eq_mulGF", "Props.C12Bytes.ghashGo_eq_ghash", "Props.C12Bytes.incr_eq_inc32", "Props.C12Bytes.incr_block", "Props.C12Bytes.multiplication_bytes", "Props.C12Bytes.ghashGo_bytes",
+        "Proofs.GCM.gctr_involution", "Proofs.GCM.inc32_low", "Proofs.GCM.inc32_high", "Props.C12Bytes.rightshift_eq", "Props.C12Bytes.addition_eq", "Props.C12Bytes.findYi_eq", "Props.C12Bytes.multiplication_eq_mulGF", "Props.C12Bytes.ghashGo_eq_ghash", "Props.C12Bytes.incr_eq_inc32", "Props.C12Bytes.incr_block", "Props.C12Bytes.multiplication_bytes", "Props.C12Bytes.ghashGo_bytes", "Props.C12Top.getY0_eq", "Props.C12Top.ctrLoops_eq", "Props.C12Top.gcmEncryptGo_eq_ae", "Props.C12Top.gcmDecryptGo_eq", "Props.C12Top.gcmDecryptGo_eq_ad", "Props.C12Top.gcm_go_roundtrip", "Props.C12Top.sm4GCMGo_roundtrip", "Props.C12Top.sm4GCMGo_enc", "Props.C12Top.sm4GCMGo_dec",
     ],
     "gen_items": ["sm4."],
     "level": "proof",
-    "claim": "Spec.GCM is SP 800-38D in Lean (validated on the RFC 8998 SM4-GCM vector and against crypto/cipher GCM over SM4 on every run). Theorems for every key, IV, additional data and plaintext: AD(AE(P)) = P with the tag accepted (GCTR involution), lengths, a tag is accepted iff it equals the recomputed one, GF(2^128) multiplication is linear, counter blocks never repeat below 2^32 blocks, and — for hash keys H whose multiplication is injective — changing any single GHASH block changes the tag (the _partial authentication theorem; the unconditional field statement is not proved). The repaired sm4_gcm.go (GCMEncrypt/GCMDecrypt/GHASH/multiplication) and the TLS suites' GCM are compared with the spec on every run. Added (C12Bytes): byte-level transcriptions of the Go functions (findYi, addition, Rightshift, multiplication with the 0xe1 reduction, the GHASH block loop with its m,v bookkeeping, the counter increment) are proved equal to SP 800-38D for all inputs: multiplication_eq_mulGF, ghashGo_eq_ghash (all lengths of A and C incl. empty and partial blocks), incr_eq_inc32 / incr_block; the driver evaluates the byte-level model next to the spec (gfmulb / ghashb) on every run.",
+    "claim": "Spec.GCM is SP 800-38D in Lean (validated on the RFC 8998 SM4-GCM vector and against crypto/cipher GCM over SM4 on every run). Theorems for every key, IV, additional data and plaintext: AD(AE(P)) = P with the tag accepted (GCTR involution), lengths, a tag is accepted iff it equals the recomputed one, GF(2^128) multiplication is linear, counter blocks never repeat below 2^32 blocks, and — for hash keys H whose multiplication is injective — changing any single GHASH block changes the tag (the _partial authentication theorem; the unconditional field statement is not proved). The repaired sm4_gcm.go (GCMEncrypt/GCMDecrypt/GHASH/multiplication) and the TLS suites' GCM are compared with the spec on every run. Added (C12Bytes): byte-level transcriptions of the Go functions (findYi, addition, Rightshift, multiplication with the 0xe1 reduction, the GHASH block loop with its m,v bookkeeping, the counter increment) are proved equal to SP 800-38D for all inputs: multiplication_eq_mulGF, ghashGo_eq_ghash (all lengths of A and C incl. empty and partial blocks), incr_eq_inc32 / incr_block; the driver evaluates the byte-level model next to the spec (gfmulb / ghashb) on every run. Added (C12Top): the top-level glue — GetH, the J0 derivation for 96-bit and other IVs, the counter-mode loops over the incr blocks with their buffer copies, tag assembly, Sm4GCM's key check — is modelled at byte level and proved equal to SP 800-38D's AE / AD for every IV (including empty), plaintext and AAD with no length bound (gcmEncryptGo_eq_ae, gcmDecryptGo_eq_ad, gcm_go_roundtrip); the driver evaluates this model for every gcmenc / gcmdec line up to 8 KB (gcmencb / gcmdecb).",
     "note": "Trusted: Lean kernel; the SP 800-38D transcription; equality of sm4_gcm.go with the spec is by differential runs (all |A|,|P| in 0..40 quick / 0..80 thorough, IV lengths 1..64 with 0xff/0xfe bias, single-bit tampering), not by translation; GF(2^128) has no zero divisors is a hypothesis of the authentication theorem.",
     "trusted_base": [
         "Spec.GCM transcription of NIST SP 800-38D (Algorithms 1-5)",
         "sm4_gcm.go is tied to Spec.GCM by the gcmenc/gcmdec/ghash/gfmul correspondence (hook: sm4.VerifMultiplication); crypto/cipher GCM over sm4.NewCipher (TLS path) by gcmtls",
     ],
     "assumptions": ["hypothesis of ghash_single_block_partial: multiplication by the hash key H is injective (holds for every H != 0 in the field GF(2^128))"],
-    "not_proved": ["GF(2^128) no-zero-divisors for the bit-level mulGF (T3)", "GCMEncrypt / GCMDecrypt top-level glue (slicing, tag comparison) as a byte-level model"],
+    "not_proved": ["GF(2^128) no-zero-divisors for the bit-level mulGF (T3)", "GF(2^128) no-zero-divisors (not needed by the equalities proved)"],
 }
 
 PROPS["C07"] = {
